@@ -53,9 +53,10 @@ func (propC07) Gen(seed uint64, tier string, idx int) *Plan {
 		}
 		ep.Models = []string{"m1", fmt.Sprintf("only-b%d", i)}
 		ep.Default = Resp{Kind: "llm", Status: 200}
+		// a slow probe answers inside the configured check_timeout (20-95 % of it): it must count as answered
 		eff := ep.CheckTimeout
-		if eff > 5*time.Second {
-			eff = 5 * time.Second
+		if eff > 12*time.Second {
+			eff = 12 * time.Second // the check round itself is given 15 s
 		}
 		// phases: piece-wise constant probe behaviour
 		t := Always
@@ -70,7 +71,12 @@ func (propC07) Gen(seed uint64, tier string, idx int) *Plan {
 				ep.HostMode = append(ep.HostMode, Phase{From: t, Mode: "up"})
 			}
 			if mode == "slow" {
-				ph.Arg = int64(eff) * int64(20+r.Pick(40)) / 100
+				// (a quarter of a second is left for connecting and the round trips: at most 40 ms per hop)
+				room := eff - 250*time.Millisecond
+				if room < eff/2 {
+					room = eff / 2
+				}
+				ph.Arg = int64(room) * int64(20+r.Pick(75)) / 100
 			}
 			ep.Health = append(ep.Health, ph)
 			if t == Always {
@@ -112,6 +118,42 @@ func (propC07) Gen(seed uint64, tier string, idx int) *Plan {
 		}
 		p.Ops = append(p.Ops, ClientOp{ID: 9000, At: tick + slow/2, Method: "POST", Path: "/olla/proxy/v1/chat/completions",
 			Body: BodySpec{Kind: "json", N: 100, Model: "m1"}, Deadline: 20 * time.Second})
+	}
+	if withTraffic && p.Sub == "with-proxy-failures" && r.Chance(350) {
+		// a request is routed while the endpoint is healthy and runs for minutes; health checks start to fail
+		// in the meantime, and then the request itself dies with a connection error: the failure it reports
+		// was observed on a snapshot that is minutes old
+		p.Sub = "with-proxy-failures/long-request"
+		ep := &p.Endpoints[0]
+		if ep.CheckInterval > 20*time.Second {
+			ep.CheckInterval = 10 * time.Second
+			if ep.CheckTimeout >= ep.CheckInterval {
+				ep.CheckTimeout = 4 * time.Second
+			}
+		}
+		k := 2 + r.Pick(4)
+		tick := time.Duration(k)*30*time.Second - time.Second
+		fails := 2 + r.Pick(5) // failed rounds before the request dies
+		dies := tick + time.Duration(fails)*30*time.Second + r.Dur(2*time.Second, 25*time.Second)
+		ep.Health = []Phase{{From: Always, Mode: "ok"}, {From: tick - 3*time.Second, Mode: pickS(r, []string{"s503", "s500", "fin"})}}
+		ep.HostMode = []Phase{{From: Always, Mode: "up"}}
+		start := tick - 5*time.Second
+		ep.ByNonce = map[string][]Resp{"n9100": {{Kind: "llm", Status: 200, PreDelay: dies - start, Fault: &Fault{At: "before-headers", Kind: "rst"}}}}
+		for i := range p.Endpoints[1:] {
+			p.Endpoints[i+1].HostMode = []Phase{{From: Always, Mode: "refuse"}}
+			p.Endpoints[i+1].Health = nil
+		}
+		var keep []ClientOp
+		for _, op := range p.Ops {
+			if op.At < start-time.Second {
+				keep = append(keep, op)
+			}
+		}
+		p.Ops = append(keep, ClientOp{ID: 9100, At: start, Method: "POST", Path: "/olla/proxy/v1/chat/completions",
+			Body: BodySpec{Kind: "json", N: 100, Model: "m1"}, Deadline: dies - start + 30*time.Second})
+		if total < dies+3*time.Minute {
+			total = dies + 3*time.Minute
+		}
 	}
 	p.Deadline = total + time.Minute
 	p.Settle = 0
@@ -177,6 +219,27 @@ func (propC07) Check(r *Run) []Violation {
 			}
 		}
 		sort.Slice(probes, func(a, b int) bool { return probes[a].at < probes[b].at })
+		// a probe is given the endpoint's check_timeout: the first probe of a round (nothing else has
+		// used up the round's own 15 s) that the checker hangs up on earlier was not given it
+		var lastArr time.Duration = -time.Hour
+		for _, e := range r.Exchanges {
+			if e.Backend != ep.Name || e.Kind != "health" {
+				continue
+			}
+			first := e.ArrivedAt-lastArr > 20*time.Second
+			lastArr = e.ArrivedAt
+			if !first || e.PeerGoneAt == 0 || e.Completed || e.ArrivedAt > endT-20*time.Second {
+				continue
+			}
+			granted := ep.CheckTimeout
+			if granted > 12*time.Second {
+				granted = 12 * time.Second
+			}
+			if waited := e.PeerGoneAt - e.ArrivedAt; waited < granted-500*time.Millisecond {
+				add("C07/probe-abandoned-before-check-timeout", "endpoint %s (check_timeout %s): the checker hung up on the probe that arrived at %s after %s, while the backend was still inside the time it is allowed (%s)", ep.Name, ep.CheckTimeout, e.ArrivedAt, waited, e.FaultFired)
+				break
+			}
+		}
 		// (3) real probes keep coming
 		const gapBound = 140 * time.Second
 		prev := time.Duration(0)
@@ -186,6 +249,9 @@ func (propC07) Check(r *Run) []Violation {
 				break
 			}
 			prev = pr.at
+		}
+		if len(probes) > 0 {
+			prev = probes[len(probes)-1].at
 		}
 		if endT-prev > gapBound {
 			add("C07/probing-stopped", "endpoint %s (interval %s): last real probe at %s, run ended at %s", ep.Name, ep.CheckInterval, prev, endT)
@@ -268,6 +334,11 @@ func (propC07) Check(r *Run) []Violation {
 				switch lp.outcome {
 				case "ok":
 					want = []string{"healthy"}
+					if strings.Contains(lp.detail, "slow@health") {
+						// an answer that took most of a long check_timeout may be filed as busy (answering, but
+						// slowly): still routable; the statement only knows healthy / not healthy
+						want = []string{"healthy", "busy"}
+					}
 				case "status":
 					want = []string{"unhealthy"}
 				case "garbage":
@@ -310,6 +381,11 @@ func (propC07) Check(r *Run) []Violation {
 				if dirty {
 					if w.NextIn < ep.CheckInterval || w.NextIn > 60*time.Second {
 						add("C07/backoff-out-of-range", "endpoint %s at %s: failed check after a proxy-detected failure wrote next check in %s (interval %s)", ep.Name, w.At, w.NextIn, ep.CheckInterval)
+					}
+					// a failure reported by the request path is one more failure, never a success: the count
+					// and the delay may run ahead of the failed checks alone, they cannot fall behind them
+					if floor := c07Delay(ep.CheckInterval, fRef+1); w.Fails < fRef+1 || w.NextIn < floor {
+						add("C07/backoff-rewound-by-proxy-failure", "endpoint %s at %s: %d consecutive failed checks (no success in between) plus proxy-detected failures, yet the repository holds %d failures and schedules the next check in %s; the failed checks alone give %d and %s", ep.Name, w.At, fRef+1, w.Fails, w.NextIn, fRef+1, floor)
 					}
 					fRef = w.Fails
 				} else {
